@@ -851,6 +851,21 @@ def _ok_return(body, e):
     return any(e in mir.reachable(body, [o]) for o in oks)
 
 
+def fieldpos_width(ctx, f):
+    """Q-FIELDS:pos-width (added after seeded change C11b): QuickFields caches header string fields as byte ranges of the
+    message; FieldPos::build maps a range that does not fit to "not present". A message may be up to 128 MiB
+    (2^27), and an object path has no 255-byte cap, so the range type must hold 2^27: u32 or wider."""
+    a = f.adts.get("zbus::message::fields::FieldPos")
+    ctx.need([a] if a else [], "ADT message::fields::FieldPos")
+    for name, ty, vis in a["variants"][0]["fields"]:
+        ok = ty in ("u32", "u64", "usize", "i64", "u128")
+        ctx.ob("Q-FIELDS", "pos-width:FieldPos.%s" % name, ok,
+               "FieldPos.%s: %s can address any offset of a 128 MiB message" % (name, ty) if ok else
+               "FieldPos.%s is %s: header fields lying beyond offset %s of a message are silently reported as absent" % (
+                   name, ty, {"u16": "65535", "u8": "255", "i32": "2^31", "i16": "32767"}.get(ty, "its range")),
+               "%s:%s" % (a.get("file"), a.get("line")))
+
+
 def parser_rules(ctx, f, spec):
     fr = ctx.one(f.find(name="from_raw_parts", adt="zbus::message::Message", trait=""), "Message::from_raw_parts")
     PHS, MIN = const_of(f, "PRIMARY_HEADER_SIZE"), const_of(f, "MIN_MESSAGE_SIZE")
@@ -1086,6 +1101,7 @@ def run(ctx):
     q_fields(ctx, f)
     builder_rules(ctx, f, spec)
     builder_ctor_rules(ctx, f)
+    fieldpos_width(ctx, f)
     parser_rules(ctx, f, spec)
     endian_rules(ctx, f, spec)
     layout_rules(ctx, f, spec)
